@@ -47,7 +47,9 @@ func valueFeature(m NodeMap) string {
 	for _, v := range m {
 		walk(v)
 	}
-	for _, f := range []string{"multiline-raw-string", "placeholder-named-symbol", "newline"} {
+	// a placeholder-named symbol dominates: the open finding (values are transported by printing, so such a
+	// symbol is read back as a placeholder) decides the outcome of the whole case whatever else it contains
+	for _, f := range []string{"placeholder-named-symbol", "multiline-raw-string", "newline"} {
 		if feat[f] {
 			return f
 		}
